@@ -28,7 +28,7 @@ type CaseSpec struct {
 	Seed    uint64              `json:"seed"`
 	Enum    *EnumSpec           `json:"enum,omitempty"`
 	Forced  []int               `json:"forced_units,omitempty"`
-	Zone    int                 `json:"zone"` // index into simZones: the process's local time zone
+	Zone    int                 `json:"zone"`              // index into simZones: the process's local time zone
 	Streams map[string][]uint64 `json:"streams,omitempty"` // replay: recorded tape
 }
 
@@ -184,7 +184,7 @@ func hashStrings(parts ...string) uint64 {
 func scheduleSignature(r *Run) string {
 	s := ""
 	for _, a := range r.Results {
-		s += fmt.Sprintf("|%v/%d/%v/%v/%v/%d", a.Causes, len(a.Calls), a.ReaderHolding, a.HandlerParked, a.MidPacket, a.PacketsDeliv)
+		s += fmt.Sprintf("|%v/%d/%v/%v/%v/%d", a.Causes, len(a.Calls), a.ReaderHolding, a.HandlerParked, a.MidPacket, a.PacketsAtCause)
 		for _, c := range a.Calls {
 			s += fmt.Sprintf(",%d:%d", c.Seq, c.PacketsDelivered)
 		}
